@@ -167,8 +167,11 @@ def slc2(ctx: Ctx) -> None:
         ctx.R.fail("SLC-2", tm, cls, f"StackSlice's documented fields are outer, inner, limit; found {fields}")
     sc = [c for c in ast.walk(since) if isinstance(c, ast.Call) and norm(c.func) == "StackSlice"]
     p0 = since.args.args[0].arg
-    if len(sc) == 1 and _kws(sc[0]) == {"outer": p0} and not sc[0].args:
+    drop_none = lambda d_: {k_: v_ for k_, v_ in d_.items() if v_ != "None"}       # a field passed explicitly at its default
+    if len(sc) == 1 and drop_none(_kws(sc[0])) == {"outer": p0} and not sc[0].args:
         ctx.R.ok("SLC-2", f"extract_since -> StackSlice(outer={p0})")
+    elif len(sc) != 1 or sc[0].args or any(k_ not in ("outer", "inner", "limit") for k_ in _kws(sc[0])):
+        ctx.R.undecided("SLC-2", f"extract_since builds {len(sc)} StackSlice(s) in a form that is not recognised")
     else:
         ctx.R.fail("SLC-2", mod, since, f"extract_since(frame) must be extract(StackSlice(outer=frame))", construct="extract_since mapping")
     inner = until.args.args[0].arg
